@@ -920,6 +920,10 @@ class _World:
         path = os.path.join(self.env.cache_dir, name)
         if ok:
             content = MANIFEST + '# name: %s\n# ok: true\n' % name
+            if i == 2:
+                # this instance's manifest carries a `uniqueid` of its own (an unusual but legal key): the container is
+                # still named after the cache file's event, as `_synchronize` expects
+                content += 'uniqueid: 0000abcdefghi\n'
         else:
             content = 'name: %s\nok: %s\n' % (name, 'false # setup' if i % 2 else 'false')
         for _attempt in range(200):
